@@ -6,6 +6,7 @@ import (
 	"regexp"
 	"strings"
 	"sync"
+	"sync/atomic"
 
 	"github.com/influxdata/influxql"
 
@@ -28,6 +29,7 @@ var c11ctx = []string{
 
 // wrappers place the regex condition inside a larger condition
 var c11wrapN = 7
+var c11both int64 // cases in which the test on the other tag was rewritten too
 
 type c11Case struct {
 	Atoms []int `json:"atoms"`
@@ -71,7 +73,7 @@ func (c c11Case) cond(re *regexp.Regexp) influxql.Expr {
 		if c.Neg {
 			other = influxql.EQREGEX
 		}
-		o := &influxql.BinaryExpr{Op: other, LHS: &influxql.VarRef{Val: "k"}, RHS: &influxql.RegexLiteral{Val: regexp.MustCompile("^(w|ww)$")}}
+		o := &influxql.BinaryExpr{Op: other, LHS: &influxql.VarRef{Val: "k"}, RHS: &influxql.RegexLiteral{Val: regexp.MustCompile("^(w|y)$")}}
 		if c.Wrap == 5 {
 			return &influxql.BinaryExpr{Op: influxql.AND, LHS: o, RHS: mk()}
 		}
@@ -131,9 +133,12 @@ func c11eval(c c11Case) ([]ev.Finding, bool, bool) {
 	var out []ev.Finding
 	// the literals that were substituted
 	lits := collectStrings(stmt.Condition, "")
+	if c.Wrap >= 5 && strings.Contains(stmt.Condition.String(), "'y'") {
+		atomic.AddInt64(&c11both, 1)
+	}
 	var subst []string
 	for _, l := range lits {
-		if (c.Wrap == 1 && l == "v") || (c.Wrap == 2 && l == "w") || (c.Wrap >= 5 && (l == "w" || l == "ww")) {
+		if (c.Wrap == 1 && l == "v") || (c.Wrap == 2 && l == "w") || (c.Wrap >= 5 && (l == "w" || l == "y")) {
 			continue
 		}
 		subst = append(subst, l)
@@ -258,6 +263,7 @@ func c11run(r *ev.Run) {
 			}
 		})
 	}
+	r.Set("mixed_operator_cases_with_both_tests_rewritten", atomic.LoadInt64(&c11both))
 	r.Set("atoms", na)
 	r.Set("contexts", len(c11ctx))
 	r.Set("valid_regex_conditions", valid)
